@@ -263,9 +263,7 @@ func buildAccountIndex(counts map[string]int) *analyzer.AccountIndex {
 	names := sortedKeys(counts)
 	for _, name := range names {
 		accountIdx.All = append(accountIdx.All, name)
-		parts := strings.Split(name, ":")
-		for i := 1; i < len(parts); i++ {
-			prefix := strings.Join(parts[:i], ":") + ":"
+		for _, prefix := range analyzer.AccountPrefixes(name) {
 			accountIdx.ByPrefix[prefix] = append(accountIdx.ByPrefix[prefix], name)
 		}
 	}
